@@ -206,7 +206,14 @@ class Check(object):
             m = k.get("match", {})
             ok = True
             for key, val in m.items():
-                if key.startswith("contains_"):
+                if key == "predicate":
+                    import findings_predicates
+                    try:
+                        if not findings_predicates.PREDICATES[val](case):
+                            ok = False
+                    except Exception:  # a predicate that cannot evaluate never suppresses
+                        ok = False
+                elif key.startswith("contains_"):
                     if val not in json.dumps(case.get(key[len("contains_"):], ""), sort_keys=True):
                         ok = False
                 elif case.get(key) != val:
